@@ -37,6 +37,21 @@ degrees) the check enumerates
   copy_layers_from()} followed by raising them with plain assignment col.surface = ... and the index set-up; then
   the full elevation set of every column; signatures carry '|route=<route>'.
 
+* order / argument units (both tiers; added after seeds C12-k, C12-l): on ONE object of rect+t, rect_rr, rectnc_r, bulge+t,
+  g7+t (thorough: g7_rr; '+t' = translated by (1234.5, -678.25, 7.5)) the 20 query modes {plain | bounds = the boundary
+  polygon as a list of arrays, a tuple of arrays, an (n,2) float ndarray, an enclosing quadrilateral as an int ndarray |
+  bounds = the bounding rectangle as a list of arrays, a tuple of tuples, a (2,2) float ndarray, an enclosing (2,2) int
+  ndarray | guess (true / nearest, every neighbour, farthest) | columns (neighbourhood, x-half) | quadtree | 3-D: plain,
+  quadtree, blockmap renaming a third of the blocks to new names, blockmap permuting another third, quadtree with each
+  map | primers: block_name(layer, column, map) over all blocks, t2grid().fromgeo(geo, blockmap=map)} are run along a
+  closed circuit in which every mode directly follows every mode (itself included) exactly once - 400 passes per
+  geometry, cut into 4-24 stretches each starting from a fresh object.  Every pass uses the SAME argument objects
+  (made once per object) and the same items (2-D: every 4th / 5th row and column of the point lattice + the per-column
+  lattices; 3-D: the elevation set of every column, of ~12 columns when there are more than 20); every answer is
+  compared with the exact reference (with a block mapping: the mapped name of the reference block), and every
+  argument (position array, bounds, guess column, column list, quadtree, block mapping) must show after the call what
+  it showed when it was made.  Signatures carry '|after=<previous mode>' / '|argument-modified|...|arg=<kind>'.
+
 * vertical origins (both tiers): the 3-D set is also run on the rect grid with its top at 25, 10 and -7.5 (geometries
   'rectz@<top>'), where column surfaces of exactly 0.0 and -0.0 lie strictly inside a layer, on a layer boundary and
   above the model top; every surface route is also run on rect43 with those tops and on the file geometries
@@ -78,7 +93,11 @@ RULE = ('per geometry: every point of the shifted 41x41 lattice over the enlarge
         'single aids, all columns x elevations, 5x5 line lattice) after every step; 4 edits x 3 target columns as query '
         '-> edit -> same queries in reverse order (+ the edited neighbourhood); 5 routes to the same column surfaces x '
         'every column x the elevation set, also with the vertical origin moved so that surfaces of exactly 0.0 and -0.0 '
-        'lie inside a layer, on a boundary and above the model top. A case is distinct by (geometry, point or line or (column, elevation), '
+        'lie inside a layer, on a boundary and above the model top; and on one object of 5 (thorough: 6) translated / '
+        'rotated geometries a closed circuit of 20 query modes (plain, 8 forms of bounds argument, guess, columns, '
+        'quadtree, 6 block-name modes with / without quadtree and renaming / permuting block mappings, 2 primers) in '
+        'which every ordered pair of modes is adjacent once, each pass on the same items with the same argument objects, '
+        'arguments compared with their initial value after every call (quadtree, column lists: after every pass). A case is distinct by (geometry, point or line or (column, elevation), '
         'aid combination); a point case is non-trivial when the point is inside the bounding box, a line case when the '
         'line crosses at least one column')
 ASSUMPTIONS = [
@@ -109,6 +128,11 @@ ASSUMPTIONS = [
     'tolerance of simplify_polygon (1e-6 on 1 - cos(turn), 0.081 degrees): corners below it may legitimately be dropped '
     'from boundary_polygon and are not in the lattice; geometries are connected tilings (parts touching at a single '
     'node are outside the family)',
+    'order units: a bounds argument may be any sequence of points accepted by indexing (list / tuple of arrays, (n,2) '
+    'ndarray of floats or integers) that encloses every column - the result must then equal the unaided search; a block '
+    'mapping passed as blockmap= renames the reported block (documented: "an optional block mapping can be applied") and '
+    'nothing else; none of the location routines is documented to modify an argument; the two primer modes are run for '
+    'their effect on later queries only (their own results are not judged)',
     'refine() and rotate() are used only to build geometries; refined columns are labelled name-free (rank by '
     'centre) because refine() names new columns in set order',
 ]
@@ -122,7 +146,9 @@ BOUNDS = {
                        'all points of the per-column lattices)', 'elevations': 'full set, every column',
               'histories': 'rect, g7 x 2 transform sequences (3 and 2 in-place transforms), query pass after every step',
               'edit_histories': 'rect, g7 x {refine, delete_column, reduce, split_column} x {corner, centre, side} target',
-              'surface_routes': 'rect43, g7 (rect43 = 4x3 rectangular, 5 layers) x 5 routes x every column x elevation set'},
+              'surface_routes': 'rect43, g7 (rect43 = 4x3 rectangular, 5 layers) x 5 routes x every column x elevation set',
+              'order_units': 'rect+t, rect_rr, rectnc_r, bulge+t, g7+t x 20 modes x 20 modes (every ordered pair adjacent once on one '
+                             'object, 4-16 fresh objects per geometry), same argument objects throughout'},
     'thorough': {'geometries': ['rect', 'rect_rr', 'rectnc', 'rectnc_r', 'bulge', 'g7', 'g7_rr', 'g5', 'g5_rr', 'g1', 'g1_rr'],
                  'point_lattice': '41x41 + 3x3 per column + 9 vertex-aligned points per node',
                  'aids': 'every single aid and every pair of aids (pairs and vertex-aligned points use the reduced guess '
@@ -131,7 +157,9 @@ BOUNDS = {
                  'guess': 'every column when the geometry has <= 120 columns', 'elevations': 'full set, every column',
                  'histories': 'rect, g7, g5 x 2 transform sequences (3 and 2 in-place transforms), query pass after every step',
               'edit_histories': 'rect, g7, g5 x {refine, delete_column, reduce, split_column} x {corner, centre, side} target',
-              'surface_routes': 'rect43, g7, g5 (rect43 = 4x3 rectangular, 5 layers) x 5 routes x every column x elevation set'},
+              'surface_routes': 'rect43, g7, g5 (rect43 = 4x3 rectangular, 5 layers) x 5 routes x every column x elevation set',
+              'order_units': 'rect+t, rect_rr, rectnc_r, bulge+t, g7+t, g7_rr x 20 modes x 20 modes (every ordered pair adjacent once on '
+                             'one object, 4-24 fresh objects per geometry), same argument objects throughout'},
 }
 TECHNIQUE = ('lattice enumeration (E3) of points x search-aid combinations, 3-D points and lines on the real mulgrid '
              'methods against an exact integer-arithmetic reference geometry')
@@ -498,6 +526,9 @@ def units(tier):
         for e in EDITS:
             for t in ETARGETS:
                 us.append(('E', g, e, t))
+    for g, step, nparts in OGEOS[tier]:
+        for part in range(nparts):
+            us.append(('O', g, (step, part), nparts))
     for g in SGEOS[tier]:
         for r in SROUTES:
             if not g.startswith('rect43') and r == 'fresh-assigned':
@@ -560,13 +591,15 @@ def aid_specs(ctx, T, p, pairs, all_guesses=True):
             yield {'columns': s, 'qtree': q}, 'columns:%s+qtree:%s' % (cls(s), cls(q))
 
 
-def point_query(ctx, p, T, spec, acls):
-    """One library query; returns [(sig, what)]"""
+def point_query(ctx, p, T, spec, acls, kw=None, pos=None):
+    """One library query; returns [(sig, what)].  kw: the keyword arguments themselves (order units: argument objects
+    that are kept and re-used); pos: the position array to pass (so that the caller can look at it afterwards)."""
     np = ctx.np
-    pos = np.array([p[0], p[1]])
+    if pos is None:
+        pos = np.array([p[0], p[1]])
     try:
         with core.timelimit(CASE_LIMIT), quiet():
-            got = ctx.geo.column_containing_point(pos, **ctx.kwargs(spec))
+            got = ctx.geo.column_containing_point(pos, **(ctx.kwargs(spec) if kw is None else kw))
     except core.CaseTimeout:
         return [('C12|column_containing_point|timeout|%s|aids=%s' % (ctx.name, acls),
                  'no answer within %.0f s for point %r aids %r' % (CASE_LIMIT, p, spec))], 'timeout', 'timeout'
@@ -670,14 +703,25 @@ def interior_point(ctx, ci):
     return None
 
 
-def block_query(ctx, ci, p, z, zc, q):
+def block_query(ctx, ci, p, z, zc, q, blockmap=None, mapname=None, pos=None, mapref=None):
+    """blockmap (order units): a block mapping passed as blockmap=; the reported name must then be the mapped name of
+    the block that contains the point (signatures carry '|blockmap=<mapname>'); mapref: the check's own copy of the
+    mapping, from which the expected name is taken."""
     np = ctx.np
     k = ctx.ref_block(ci, z) if ci is not None else None
     want = None if k is None else block_name_ref(ctx.geo.convention, ctx.cols[ci].name, ctx.lay[k][0])
+    if pos is None:
+        pos = np.array([p[0], p[1], z])
+    kw = {}
+    if blockmap is not None:
+        kw['blockmap'] = blockmap
+        if mapref is None:
+            mapref = blockmap
+        if want is not None:
+            want = mapref.get(want, want)
     try:
         with core.timelimit(CASE_LIMIT), quiet():
-            got = ctx.geo.block_name_containing_point(np.array([p[0], p[1], z]),
-                                                      qtree=ctx.aid('qtree', 'all') if q else None)
+            got = ctx.geo.block_name_containing_point(pos, qtree=ctx.aid('qtree', 'all') if q else None, **kw)
     except core.CaseTimeout:
         return [('C12|block_name_containing_point|timeout|%s' % ctx.name, 'no answer for %r' % ((p, z),))], 'timeout'
     except Exception as e:
@@ -695,6 +739,8 @@ def block_query(ctx, ci, p, z, zc, q):
     air = None
     if ks:
         air = block_name_ref(ctx.geo.convention, ctx.cols[ci].name, ctx.lay[ks[0]][0])
+        if blockmap is not None:
+            air = mapref.get(air, air)
     if want is None and air is not None and got == air and s < z < ctx.lay[ks[0] - 1][1]:
         # in the air between the column surface and the top of the column's surface layer, reported to be in the
         # column's topmost block: one signature per geometry
@@ -708,9 +754,11 @@ def block_query(ctx, ci, p, z, zc, q):
         clause = 'none-for-point-inside-block'
     else:
         clause = 'wrong-block'
-    return [('C12|block_name_containing_point|%s|%s|%s|qtree=%s' % (clause, ctx.name, zc, 'all' if q else 'none'),
-             'point (%r, %r, %r) in column %r (surface %r, layer boundaries %r): reference block %r, library returned %r'
-             % (p[0], p[1], z, ctx.labels[ci], s, [b for _, b in ctx.lay], want, got))], clause
+    return [('C12|block_name_containing_point|%s|%s|%s|qtree=%s%s' % (clause, ctx.name, zc, 'all' if q else 'none',
+                                                                      '|blockmap=' + mapname if mapname else ''),
+             'point (%r, %r, %r) in column %r (surface %r, layer boundaries %r): reference block %s%r, library returned %r'
+             % (p[0], p[1], z, ctx.labels[ci], s, [b for _, b in ctx.lay],
+                '(after the block mapping %s) ' % mapname if mapname else '', want, got))], clause
 
 
 def do_blocks(ctx, ci, tier, rec):
@@ -1199,6 +1247,321 @@ def run_surface_route(g, route, tier, rec, only_ctx=False):
     return None
 
 
+# ---- order / argument units --------------------------------------------------------------------
+# Every query mode is run directly after every mode (itself included) on ONE geometry object, always with the SAME
+# argument objects; every answer is compared with the exact reference; every argument must be unchanged afterwards.
+
+OMODES = ('plain',
+          'bounds:poly-list', 'bounds:poly-tuple', 'bounds:poly-float-ndarray', 'bounds:quad-int-ndarray',
+          'bounds:rect-list', 'bounds:rect-tuple', 'bounds:rect-float-ndarray', 'bounds:rect-int-ndarray',
+          'guess', 'columns', 'qtree',
+          'block:plain', 'block:qtree', 'block:map-new', 'block:map-perm', 'block:qtree+map-new',
+          'block:qtree+map-perm', 'prime:block_name+maps', 'prime:fromgeo+maps')
+OSHIFT = (1234.5, -678.25, 7.5)          # '<geometry>+t': translated by this
+OGEOS = {'quick': [('rect+t', 4, 4), ('rect_rr', 4, 4), ('rectnc_r', 4, 4), ('bulge+t', 4, 4), ('g7+t', 5, 16)],
+         'thorough': [('rect+t', 4, 4), ('rect_rr', 4, 4), ('rectnc_r', 4, 4), ('bulge+t', 4, 4), ('g7+t', 5, 16),
+                      ('g7_rr', 5, 24)]}       # (geometry, step through the 41x41 lattice, parts)
+OCOLS = 12                                # 3-D set of an order unit: every column when <= 20, else ~OCOLS of them
+
+
+def de_bruijn2(m):
+    """Cyclic sequence over range(m), length m*m, in which every ordered pair (a, b) - a == b included - occurs
+    exactly once as two consecutive elements."""
+    a = [0] * 4
+    seq = []
+
+    def db(t, p):
+        if t > 2:
+            if 2 % p == 0:
+                seq.extend(a[1:p + 1])
+        else:
+            a[t] = a[t - p]
+            db(t + 1, p)
+            for j in range(a[t - p] + 1, m):
+                a[t] = j
+                db(t + 1, t)
+    db(1, 1)
+    pairs = set((seq[i], seq[(i + 1) % len(seq)]) for i in range(len(seq)))
+    if len(seq) != m * m or len(pairs) != m * m:
+        raise core.HarnessError('de_bruijn2(%d) does not cover every ordered pair once' % m)
+    return seq
+
+
+def order_segment(part, nparts):
+    """This unit's stretch of the mode circuit: positions lo..hi inclusive (the last one is the first of the next
+    unit's stretch, so the pair across the cut is run too; the circuit is closed)."""
+    seq = de_bruijn2(len(OMODES))
+    n = len(seq)
+    k = (n + nparts - 1) // nparts
+    lo, hi = part * k, min(n, (part + 1) * k)
+    return [OMODES[seq[i % n]] for i in range(lo, hi + 1)]
+
+
+def snap(v):
+    """Canonical value of an argument object (what a caller can see of it)."""
+    import numpy as np
+    if isinstance(v, np.ndarray):
+        return ('ndarray', str(v.dtype), v.shape, v.tobytes())
+    if isinstance(v, (list, tuple)):
+        return (type(v).__name__,) + tuple(snap(x) for x in v)
+    if isinstance(v, dict):
+        return ('dict',) + tuple(sorted((k, snap(x)) for k, x in v.items()))
+    if v is None or isinstance(v, (bool, int, str)):
+        return v
+    if isinstance(v, float):
+        return ('float', v.hex())
+    cn = type(v).__name__
+    if cn == 'column':
+        return ('column', id(v), v.name, tuple((n.name, snap(n.pos)) for n in v.node), snap(v.centre),
+                None if v.surface is None else float(v.surface).hex(), tuple(sorted(c.name for c in v.neighbour)))
+    if cn == 'quadtree':
+        return ('quadtree', snap(list(v.bounds)), tuple(id(e) for e in v.elements), tuple(snap(c) for c in v.child))
+    raise core.HarnessError('snap: unexpected argument type %s' % cn)
+
+
+class OrderArgs(object):
+    """The query items and the argument objects of one order unit (made once, used for every pass)."""
+
+    def __init__(self, ctx, step):
+        np = ctx.np
+        geo = ctx.geo
+        self.ctx = ctx
+        # 2-D items
+        self.p2 = []
+        pts = [(('G', i, j), (ctx.gx[i], ctx.gy[j])) for j in range(0, NP, step) for i in range(0, NP, step)]
+        cstep = 1 if ctx.n <= 20 else max(1, ctx.n // OCOLS)
+        self.cols3 = [ci for ci in range(ctx.n) if ci % cstep == 0]
+        for ci in self.cols3:
+            if ctx.n <= 20:
+                pts += [(('C', ctx.labels[ci], a, b), (ctx.loc[ci][0][a], ctx.loc[ci][1][b]))
+                        for a in range(NLOC) for b in range(NLOC)]
+            else:
+                pts.append((('C', ctx.labels[ci], 1, 1), (ctx.loc[ci][0][1], ctx.loc[ci][1][1])))
+        self.excluded = 0
+        for pid, p in pts:
+            inside, ratio = ctx.mesh.locate(p)
+            if ratio < 1.0 or len(inside) > 1:
+                self.excluded += 1
+                continue
+            self.p2.append((pid, p, inside[0] if inside else None))
+        # 3-D items: (column index or None, point, z, class)
+        self.p3 = []
+        for ci in self.cols3:
+            p = interior_point(ctx, ci)
+            if p is None:
+                continue
+            for z, zc in elevations(ctx, ci):
+                self.p3.append((ci, p, z, zc))
+        zmid = 0.5 * (ctx.lay[0][1] + ctx.lay[1][1])
+        for pid, p, T in self.p2:
+            if T is None and pid[0] == 'G':
+                self.p3.append((None, p, zmid, 'outside-every-column'))
+        # bounds
+        poly = geo.boundary_polygon
+        bb = ctx.bb
+        x0, y0 = int(math.floor(bb[0])) - 3, int(math.floor(bb[1])) - 2
+        x1, y1 = int(math.ceil(bb[2])) + 2, int(math.ceil(bb[3])) + 3
+        rect = geo.bounds
+        self.args = {
+            'bounds:poly-list': poly,
+            'bounds:poly-tuple': tuple(np.array([float(v[0]), float(v[1])]) for v in poly),
+            'bounds:poly-float-ndarray': np.array([[float(v[0]), float(v[1])] for v in poly], dtype=np.float64),
+            'bounds:quad-int-ndarray': np.array([[x1, y0], [x1, y1], [x0, y1], [x0, y0]], dtype=np.int64),
+            'bounds:rect-list': rect,
+            'bounds:rect-tuple': ((float(rect[0][0]), float(rect[0][1])), (float(rect[1][0]), float(rect[1][1]))),
+            'bounds:rect-float-ndarray': np.array([[float(rect[0][0]), float(rect[0][1])],
+                                                   [float(rect[1][0]), float(rect[1][1])]], dtype=np.float64),
+            'bounds:rect-int-ndarray': np.array([[x0, y0], [x1, y1]], dtype=np.int64),
+            'qtree': ctx.aid('qtree', 'all'),
+        }
+        # block mappings, chosen by rank (column label order, layer) so that they do not depend on generated names
+        blocks = []
+        for ci in range(ctx.n):
+            s = ctx.surface[ci]
+            for k in range(1, len(ctx.lay)):
+                if ctx.lay[k][1] < s:
+                    blocks.append(block_name_ref(geo.convention, ctx.cols[ci].name, ctx.lay[k][0]))
+        self.blocks = blocks
+        if len(set(blocks)) != len(blocks):
+            raise core.HarnessError('reference block names of %s are not unique' % ctx.name)
+        new = dict((nm, 'Z%04d' % i) for i, nm in enumerate(blocks[0::3]))
+        if set(new.values()) & set(blocks):
+            raise core.HarnessError('new block names collide with blocks of %s' % ctx.name)
+        pk = blocks[1::3]
+        perm = dict((nm, pk[(i + 1) % len(pk)]) for i, nm in enumerate(pk))
+        self.args['blockmap:new'] = new
+        self.args['blockmap:perm'] = perm
+        self.mapref = {'new': dict(new), 'perm': dict(perm)}
+        for ci, c in enumerate(ctx.cols):
+            self.args[('guess', ci)] = c
+        self.snaps = dict((k, snap(v)) for k, v in self.args.items())
+        self.reported = {}      # (mode, item) -> wrong answer already reported in this unit
+
+    def columns_arg(self, spec):
+        key = ('columns', spec)
+        if key not in self.args:
+            self.args[key] = self.ctx.aid('columns', spec)
+            self.snaps[key] = snap(self.args[key])
+        return self.args[key]
+
+    def unchanged(self, key, fn, rec, case):
+        """The argument object must show what it showed when it was made."""
+        now = snap(self.args[key])
+        if now == self.snaps[key]:
+            return
+        self.snaps[key] = now
+        kind = key if isinstance(key, str) else key[0]
+        rec.violation('C12|%s|argument-modified|%s|arg=%s' % (fn, self.ctx.name, kind),
+                      'the %s object passed by the caller was modified by the call (mode %s)' % (kind, case['mode']),
+                      dict(case, kind='order', q=['argument', kind]))
+
+
+def order_pass(oa, mode, prev, step, tier, rec, hist):
+    ctx = oa.ctx
+    np = ctx.np
+    after = '|after=' + prev
+
+    def base_case(q):
+        return {'kind': 'order', 'geo': ctx.name, 'tier': tier, 'order': hist, 'step': step, 'mode': mode,
+                'prev': prev, 'q': q}
+
+    def report(viol, item, got, case):
+        if not viol:
+            return
+        if (mode, item) in oa.reported:
+            # reported once per unit, under the first predecessor after which it fails
+            rec.count('order:failures_of_a_mode_and_item_already_reported_in_this_unit')
+            return
+        oa.reported[(mode, item)] = got
+        for sig, what in viol:
+            rec.violation(sig + after, 'directly after a pass in mode %r on the same geometry object, with the same '
+                          'argument objects as in every earlier pass: %s' % (prev, what), case)
+
+    if mode.startswith('prime:'):
+        # not a query: other legal uses of the block mappings on the same geometry object
+        try:
+            with core.timelimit(10 * CASE_LIMIT), quiet():
+                for mk in ('new', 'perm'):
+                    m = oa.args['blockmap:' + mk]
+                    if mode == 'prime:block_name+maps':
+                        for ci in range(ctx.n):
+                            for k in range(1, len(ctx.lay)):
+                                ctx.geo.block_name(ctx.lay[k][0], ctx.cols[ci].name, m)
+                    else:
+                        from t2grids import t2grid
+                        t2grid().fromgeo(ctx.geo, blockmap=m)
+                    rec.count('order:primer_calls')
+        except core.CaseTimeout:
+            rec.count('order:primer_timeouts')
+        except Exception:
+            rec.count('order:primer_raised')
+        for mk in ('new', 'perm'):
+            oa.unchanged('blockmap:' + mk, mode[6:].split('+')[0], rec, base_case(None))
+        return
+    if not mode.startswith('block:'):
+        for pid, p, T in oa.p2:
+            bbx = ctx.bb
+            inbox = bbx[0] <= p[0] <= bbx[2] and bbx[1] <= p[1] <= bbx[3]
+            if mode == 'guess':
+                base = T
+                near, far = ctx.nearest_farthest(p)
+                if base is None:
+                    base = near
+                nb = sorted(ctx.nbr[base])
+                subs = [(base, 'true' if T is not None else 'nearest')] + [(j, 'neighbour') for j in nb]
+                if far != base and far not in nb:
+                    subs.append((far, 'far'))
+                calls = [({'guess': oa.args[('guess', j)]}, {'guess': ctx.labels[j]}, 'guess:' + c, [('guess', j)])
+                         for j, c in subs]
+            elif mode == 'columns':
+                base = T if T is not None else ctx.nearest_farthest(p)[0]
+                calls = []
+                for spec in ('nbr:' + ctx.labels[base], 'halfx:%d' % ctx.half['x'][base]):
+                    calls.append(({'columns': oa.columns_arg(spec)}, {'columns': spec},
+                                  'columns:' + spec.split(':')[0].rstrip('xy'), []))
+            elif mode == 'qtree':
+                calls = [({'qtree': oa.args['qtree']}, {'qtree': 'all'}, 'qtree:all', [])]
+            elif mode == 'plain':
+                calls = [({}, {}, 'none', [])]
+            else:
+                calls = [({'bounds': oa.args[mode]}, {'bounds': mode[7:]}, mode, [mode])]
+            for kw, spec, acls, keys in calls:
+                pos = np.array([p[0], p[1]])
+                viol, oc, got = point_query(ctx, p, T, spec, acls, kw=kw, pos=pos)
+                item = (pid, tuple(sorted(spec.items())))
+                rec.case((ctx.name, 'O', mode, prev, item), nontrivial=inbox, outcome='order-' + oc)
+                case = base_case({'p': [p[0], p[1]], 'spec': spec, 'aidclass': acls})
+                report(viol, item, got, case)
+                if oc == 'timeout':
+                    note_timeout(rec)
+                if not (pos.shape == (2,) and float(pos[0]) == p[0] and float(pos[1]) == p[1]):
+                    rec.violation('C12|column_containing_point|argument-modified|%s|arg=pos' % ctx.name,
+                                  'the position array passed by the caller was modified (mode %s)' % mode,
+                                  dict(case, q=['argument', 'pos']))
+                for key in keys:
+                    oa.unchanged(key, 'column_containing_point', rec, case)
+        for key in list(oa.args):
+            if key == 'qtree' or (isinstance(key, tuple) and key[0] == 'columns'):
+                oa.unchanged(key, 'column_containing_point', rec, base_case(None))
+        return
+    q = 'qtree' in mode
+    mk = 'new' if 'map-new' in mode else 'perm' if 'map-perm' in mode else None
+    for ci, p, z, zc in oa.p3:
+        pos = np.array([p[0], p[1], z])
+        # (signatures of an order unit: the input class is the pair of modes, not the elevation class - that is in the case)
+        if mk is None:
+            viol, oc = block_query(ctx, ci, p, z, 'order-set', q, pos=pos)
+        else:
+            viol, oc = block_query(ctx, ci, p, z, 'order-set', q, blockmap=oa.args['blockmap:' + mk], mapname=mk, pos=pos,
+                                   mapref=oa.mapref[mk])
+        item = ('B', None if ci is None else ctx.labels[ci], p[0], p[1], z)
+        rec.case((ctx.name, 'O', mode, prev, item), nontrivial=True, outcome='order-3d-' + oc)
+        case = base_case({'col': None if ci is None else ctx.labels[ci], 'p': [p[0], p[1]], 'z': z, 'zclass': zc})
+        report(viol, item, viol[0][1] if viol else None, case)
+        if oc == 'timeout':
+            note_timeout(rec)
+        if not (pos.shape == (3,) and float(pos[0]) == p[0] and float(pos[1]) == p[1] and float(pos[2]) == z):
+            rec.violation('C12|block_name_containing_point|argument-modified|%s|arg=pos' % ctx.name,
+                          'the position array passed by the caller was modified (mode %s)' % mode,
+                          dict(case, q=['argument', 'pos']))
+        if mk is not None:
+            oa.unchanged('blockmap:' + mk, 'block_name_containing_point', rec, case)
+    if q:
+        oa.unchanged('qtree', 'block_name_containing_point', rec, base_case(None))
+
+
+def order_geometry(g):
+    base, _, t = g.partition('+')
+    geo, old = _library_geometry(base)
+    if t:
+        with quiet():
+            geo.translate(list(OSHIFT))
+    return geo, old
+
+
+def run_order(g, step, part, nparts, tier, rec, stop_after=None):
+    geo, old = order_geometry(g)
+    ctx = Ctx(g, NLINE_E, geo=geo, old=old)
+    oa = OrderArgs(ctx, step)
+    rec.count('geometry:%s@order:%s:columns=%d' % (g, ctx.digest, ctx.n), 1)
+    if part == 0:
+        rec.count('order:%s:2d_items' % g, len(oa.p2))
+        rec.count('order:%s:3d_items' % g, len(oa.p3))
+        rec.count('order:%s:2d_items_excluded_near_edge_or_overlap' % g, oa.excluded)
+        rec.count('order:%s:blocks_renamed_to_new_names' % g, len(oa.mapref['new']))
+        rec.count('order:%s:blocks_permuted' % g, len(oa.mapref['perm']))
+    hist = {'part': part, 'nparts': nparts, 'lattice_step': step}
+    prev = 'fresh'
+    for k, mode in enumerate(order_segment(part, nparts)):
+        order_pass(oa, mode, prev, k, tier, rec, hist)
+        rec.count('order:passes')
+        if prev != 'fresh':
+            rec.count('order:ordered_pairs_of_modes_run')
+        prev = mode
+        if stop_after is not None and k >= stop_after:
+            break
+
+
 def run_unit(unit, tier, rec):
     try:
         _run_unit(unit, tier, rec)
@@ -1211,6 +1574,11 @@ def _run_unit(unit, tier, rec):
     kind, g, lo, hi = unit
     if kind == 'E':
         run_edit_history(g, lo, hi, tier, rec)
+        return
+    if kind == 'O':
+        run_order(g, lo[0], lo[1], hi, tier, rec)
+        if lo[1] == 0:
+            rec.sample({'order_unit': g, 'modes': list(OMODES), 'segment': order_segment(0, hi)[:8] + ['...']}, force=False)
         return
     if kind == 'S':
         run_surface_route(g, lo, tier, rec)
@@ -1275,6 +1643,16 @@ def replay(case):
     core.load_library()
     tier = case.get('tier', 'thorough')
     h = case.get('hist')
+    if case.get('kind') == 'order':
+        import json
+        o = case['order']
+        r = core.Rec()
+        try:
+            run_order(case['geo'], o['lattice_step'], o['part'], o['nparts'], tier, r, stop_after=case['step'])
+        except UnitAborted:
+            pass
+        want = json.dumps(case, sort_keys=True)
+        return [(sig, e['what']) for sig, e in sorted(r.viol.items()) if json.dumps(e['case'], sort_keys=True) == want]
     if h and 'edit' in h:
         c2 = dict(case)
         del c2['hist']
